@@ -76,6 +76,8 @@ def gen(seed: int, i: int, tier: str) -> dict:
             k = rng.choice(keys)
             v += 1
             ops.append(["send", [k[0], k[1], 1, 0, k[2], f"v{v}"], True])
+        if rng.random() < 0.15:
+            ops.append(["reenter"])  # the caller reconnects after the transport failure (same Gateway object)
     for n in nodes + nodes:
         ops.append(["line", G.wake_line(proto, n, 90)])
     kind = rng.choice([1, 2])
